@@ -52,6 +52,18 @@ def showRes : Res Nat → String
 /-- ids that may be live: 0 … last+1 is enough (ids are handed out as last+1) -/
 def candidates (a : App E Q) : List Nat := List.range (a.last + 3)
 
+/-- the backtest map of the model is a function that every request wraps once more; after each line the driver replaces
+    it by a table over the ids that can be live (the same function on all of them), built before the closure that reads
+    it is made -/
+def lookupBt {β : Type} (tbl : Array (Nat × Option β)) (i : Nat) : Option β :=
+  match tbl.find? (fun e => e.1 == i) with
+  | some e => e.2
+  | none => none
+
+def compactApp (a : App E Q) : App E Q :=
+  let tbl := ((candidates a).map (fun i => (i, a.backtests i))).toArray
+  { a with backtests := lookupBt tbl }
+
 def step (ad : Adapter E Q O D R) (v : Variant) (w : W E Q) (ts : List String) : W E Q × String :=
   match ts with
   | "DATA" :: name :: _ :: syms => ({ w with defs := w.defs.filter (fun d => d.name != name) ++ [{ name := name, syms := syms }] }, "ok")
@@ -83,25 +95,25 @@ def step (ad : Adapter E Q O D R) (v : Variant) (w : W E Q) (ts : List String) :
       | "INIT", [name] =>
         let r := init ad.ops v a name
         let bt := match r.1 with | .ok i => i | _ => 0
-        ({ w with app := some r.2 }, s!"{showRes r.1} ; {tail ad r.2 bt (candidates r.2)}")
+        ({ w with app := some (compactApp r.2) }, s!"{showRes r.1} ; {tail ad r.2 bt (candidates r.2)}")
       | "NEWBT", [name] =>
         let r := newBacktest ad.ops a name
         let bt := match r.1 with | .ok i => i | _ => 0
-        ({ w with app := some r.2 }, s!"{showRes r.1} ; {tail ad r.2 bt (candidates r.2)}")
+        ({ w with app := some (compactApp r.2) }, s!"{showRes r.1} ; {tail ad r.2 bt (candidates r.2)}")
       | "INS", id :: otoks =>
         match ad.parseIns otoks with
         | none => (w, "bad-op")
         | some o =>
           let r := insert ad.ops a id.toNat! o
           let rs := if r.1 then "ok" else "none"
-          ({ w with app := some r.2 }, s!"R {rs} ; {tail ad r.2 id.toNat! (candidates r.2)}")
+          ({ w with app := some (compactApp r.2) }, s!"R {rs} ; {tail ad r.2 id.toNat! (candidates r.2)}")
       | "DEL", id :: dtoks =>
         match ad.parseDel dtoks with
         | none => (w, "bad-op")
         | some d =>
           let r := delete ad.ops a id.toNat! d
           let rs := if r.1 then "ok" else "none"
-          ({ w with app := some r.2 }, s!"R {rs} ; {tail ad r.2 id.toNat! (candidates r.2)}")
+          ({ w with app := some (compactApp r.2) }, s!"R {rs} ; {tail ad r.2 id.toNat! (candidates r.2)}")
       | "TICK", id :: "A" :: _ :: ["BAD"] => (w, s!"REJECT-ADMISSION not-a-permutation-of-the-batch {id}")
       | "TICK", id :: "A" :: n :: idx =>
         let idx := (idx.take n.toNat!).map String.toNat!
@@ -113,10 +125,10 @@ def step (ad : Adapter E Q O D R) (v : Variant) (w : W E Q) (ts : List String) :
           let adm := idx.filterMap (fun i => buf[i]?)
           let r := tick ad.ops v a id.toNat! adm
           match r.1 with
-          | none => ({ w with app := some r.2 }, s!"R none ; {tail ad r.2 id.toNat! (candidates r.2)}")
+          | none => ({ w with app := some (compactApp r.2) }, s!"R none ; {tail ad r.2 id.toNat! (candidates r.2)}")
           | some (hn, res) =>
-            if ad.panicR res then ({ w with app := some r.2 }, "PANIC")
-            else ({ w with app := some r.2 }, s!"R ok ; H {hn} ; {ad.showR res} ; {tail ad r.2 id.toNat! (candidates r.2)}")
+            if ad.panicR res then ({ w with app := some (compactApp r.2) }, "PANIC")
+            else ({ w with app := some (compactApp r.2) }, s!"R ok ; H {hn} ; {ad.showR res} ; {tail ad r.2 id.toNat! (candidates r.2)}")
       | "FETCH", [id] =>
         let tl := tail ad a id.toNat! (candidates a)
         match fetch a id.toNat! with
